@@ -2,7 +2,7 @@
    nothing lost.  Model/Vector.v: the class stores a real Python list, so list behaviour is ListSpec
    itself; the model adds the constructor, the isinstance checks and the mixins built on them. *)
 From Coq Require Import ZArith List.
-From NV Require Import Common.Py Spec.ListSpec Model.Vector Proofs.C18Proofs.
+From NV Require Import Common.Py Spec.ListSpec Model.Vector Proofs.C18Proofs Proofs.C18Extend.
 Open Scope Z_scope.
 
 (* the constructor keeps exactly the iterable's items in order; value type = type of the first item,
@@ -40,6 +40,32 @@ Theorem C18_reject_wrong_type : forall s x i,
   forall a b c items, In x items -> v_step s (VSetSlice a b c (ItItems items)) = (Raise TypeError, s).
 Proof. exact reject_wrong_type. Qed.
 Print Assumptions C18_reject_wrong_type.
+
+(* extend / += exactly: the vector ends up with its old items followed by the longest well-typed
+   prefix of the argument (typed_prefix), and the call succeeds iff that prefix is the whole
+   argument; a well-typed argument is appended whole, in order; v.extend(v) doubles the vector *)
+Theorem C18_extend_exact : forall s items,
+  let kept := {| vt := vt s; elems := elems s ++ typed_prefix (vt s) items |} in
+  v_step s (VExtend (ItItems items)) =
+    (if forallb (instance_of (vt s)) items then Ok RNone else Raise TypeError, kept) /\
+  v_step s (VIadd (ItItems items)) = v_step s (VExtend (ItItems items)).
+Proof. exact step_extend_exact. Qed.
+Print Assumptions C18_extend_exact.
+Theorem C18_typed_prefix : forall t items,
+  exists rest, items = typed_prefix t items ++ rest /\
+    Forall (fun v => instance_of t v = true) (typed_prefix t items) /\
+    match rest with nil => True | cons y _ => instance_of t y = false end.
+Proof. exact typed_prefix_spec. Qed.
+Print Assumptions C18_typed_prefix.
+Theorem C18_extend_ok : forall s items,
+  forallb (instance_of (vt s)) items = true ->
+  v_step s (VExtend (ItItems items)) = (Ok RNone, {| vt := vt s; elems := elems s ++ items |}).
+Proof. exact step_extend_ok. Qed.
+Print Assumptions C18_extend_ok.
+Theorem C18_extend_self : forall s, typed s ->
+  v_step s (VExtend ItSelf) = (Ok RNone, {| vt := vt s; elems := elems s ++ elems s |}).
+Proof. exact step_extend_self. Qed.
+Print Assumptions C18_extend_self.
 
 Example C18_witness :
   (exists s, v_init (ItItems [SInt 1; SBool true; SInt 3]) None = Ok s /\ vt s = TInt) /\
